@@ -145,6 +145,9 @@ class Gen(object):
         sess = cfg["session"]
         clean = True if sess == "clean" else (False if sess == "persistent" else rng.random() < 0.4)
         k = {"keepalive": cfg["keepalive"], "cleanStart": clean}
+        if rng.random() < 0.12:
+            # not every connect() of an application uses the same keepalive
+            k["keepalive"] = rng.choice([0, 0, 1, 2, 5, 60])
         ver = cfg["version"]
         k["version"] = {"$": "v31"} if ver == 3 else {"$": "v311"}
         if self.fam in ("wire", "handshake", "args") or rng.random() < 0.15:
@@ -205,7 +208,8 @@ class Gen(object):
             return {"op": "app.call", "addr": addr, "m": "disconnect", "when": when}
         if what == "connect":
             return {"op": "app.call", "addr": addr, "m": "connect", "a": ["retry"],
-                    "k": {"cleanStart": rng.random() < 0.5, "keepalive": self.cfg["keepalive"],
+                    "k": {"cleanStart": rng.random() < 0.5,
+                          "keepalive": self.cfg["keepalive"] if rng.random() < 0.5 else rng.choice([0, 0, 1, 5, 60]),
                           "version": {"$": "v31"} if self.cfg["version"] == 3 else {"$": "v311"}}, "when": when}
         raise ValueError(what)
 
@@ -417,7 +421,7 @@ class Gen(object):
         if st == "connecting":
             acts = [("connack", 10)]
             if cfg["profile"] & 2:
-                acts.append(("publish", 4 if fam in ("persistent", "clean", "general", "qos2", "closing", "ids") else 1.5))
+                acts.append(("publish", 4 if fam in ("persistent", "clean", "general", "qos2", "closing", "ids", "handshake") else 1.5))
             acts += [("fire", 1.0 if fam == "handshake" else 0.3), ("gate", 0.7 if fam in ("gate", "handshake") else 0.2),
                      ("advance", 0.5)]
             if F["close"]:
